@@ -1,0 +1,7 @@
+//go:build !verif
+
+package capnp
+
+// verifYield marks a scheduling point for the verification harness; it does
+// nothing (and is inlined away) unless the "verif" build tag is set.
+func verifYield(string) {}
